@@ -123,7 +123,32 @@ func (s *State) get(comp string) Term {
 		res = s.joinGet(comp, sort)
 	}
 	s.w[comp] = res
+	if strings.HasSuffix(res.S, fmt.Sprintf("@0|")) || strings.Contains(res.S, fmt.Sprintf("@h%d|", s.id)) || strings.Contains(res.S, fmt.Sprintf("@l%d|", s.id)) {
+		s.closed(comp, res)
+	}
 	return res
+}
+
+// closed states, for a freshly introduced version of a component that holds slices
+// inside containers (map values, slice elements), that every stored slice refers to
+// nil or to an allocated array: the heap of a Go program holds no dangling references.
+// (Directly loaded references get the same fact at the load.)
+func (s *State) closed(comp string, v Term) {
+	vc := s.vc
+	var idx1, idx2 string
+	switch {
+	case strings.HasPrefix(comp, "MV!") && strings.HasSuffix(comp, "!Slice"):
+		ks, _ := arrayParts(func() string { _, row := arrayParts(vc.comps[comp]); return row }())
+		idx1, idx2 = SInt, ks
+	case comp == "E!Slice":
+		idx1, idx2 = SInt, SInt
+	default:
+		return
+	}
+	al := s.get("alloc")
+	e := fmt.Sprintf("(select (select %s m) k)", v.S)
+	arr := "(s_arr " + e + ")"
+	vc.assume(T(fmt.Sprintf("(forall ((m %s) (k %s)) (! (or (= %s 0) (and (select %s (|baseOf| %s)) (= (|baseOf| %s) %s))) :pattern (%s)))", idx1, idx2, arr, al.S, arr, arr, arr, e), SBool))
 }
 
 func (s *State) joinGet(comp, sort string) Term {
